@@ -3,7 +3,7 @@
 the demonstration fails with the change and passes without it. Writes /tmp/seeded_out/<id>/confirm.json."""
 import json, os, subprocess, sys, time
 WT = '/tmp/wt_confirm'
-OUT = '/tmp/seeded_out'
+OUT = os.environ.get('SEED_OUT', '/tmp/seeded_out')
 env = dict(os.environ, CARGO_NET_OFFLINE='true', CARGO_TARGET_DIR=WT + '/target', VF_REPO=WT, RUST_BACKTRACE='0')
 
 def sh(cmd, **kw):
